@@ -78,30 +78,17 @@ theorem C07_noise_after (pre post post' : List Bytes) (tail tail' : Bytes) (ran 
   rw [C07_roundtrip pre post tail ran fails errs hpre0 hpost0 htail hpre hf he,
     C07_roundtrip pre post' tail' ran fails errs hpre0 hpost0' htail' hpre hf he]
 
-/-- full statement of the truncation clause (kept visible): a report cut at *any* byte offset (every
-strict prefix `p`), after any non-spoofing noise, is never used partially — the parent reports a
-communication error, or (only possible when the cut removed nothing but the final newline of a
-report without names) records exactly the child's complete data. -/
-def C07_truncation_full : Prop :=
-  ∀ (pre : List Bytes) (ran : Nat) (fails errs : List Bytes) (p s : Bytes),
-    (∀ l ∈ pre, 10 ∉ l) → (∀ l ∈ pre, parseHeader l = none) →
-    (∀ n ∈ fails, 10 ∉ n) → (∀ n ∈ errs, 10 ∉ n) → s ≠ [] → p ++ s = encodeReport ran fails errs →
-    parse (joinLines pre ++ p) = .commError ∨
-      (fails = [] ∧ errs = [] ∧ parse (joinLines pre ++ p) = .ok (Int.ofNat ran) [] [])
-
-/-- **C07_truncation_partial** — proved part of `C07_truncation_full`: a cut report yields a
-communication error — never an exception, never a name list — except that a cut *inside the header
-line* may be accepted as a report without names (the code accepts an unterminated last line as a
-header only if it announces no names).  Missing for the full statement: that the accepted number is
-the child's `ran` and that the child's lists were indeed empty (decimal-prefix arithmetic; monitored
-on the real parser at every byte offset by the correspondence). -/
-theorem C07_truncation_partial (pre : List Bytes) (ran : Nat) (fails errs : List Bytes) (p s : Bytes)
+/-- **C07_truncation** — a report cut at *any* byte offset (every strict prefix `p`), after any
+non-spoofing noise, is never used partially: the parent reports a communication error (and records an
+error for the layer) or — only possible when the cut removed nothing but the final newline of a
+report that lists no names — records exactly the child's complete data.  Never an exception
+(`C07_never_crash`), never a name list from a cut report, never a wrong number. -/
+theorem C07_truncation (pre : List Bytes) (ran : Nat) (fails errs : List Bytes) (p s : Bytes)
     (hpre0 : ∀ l ∈ pre, 10 ∉ l) (hpre : ∀ l ∈ pre, parseHeader l = none)
     (hf : ∀ n ∈ fails, 10 ∉ n) (he : ∀ n ∈ errs, 10 ∉ n)
     (hs : s ≠ []) (hp : p ++ s = encodeReport ran fails errs) :
     parse (joinLines pre ++ p) = .commError ∨
-      (p.length ≤ (headerLine ran fails.length errs.length).length ∧
-        ∃ x, parse (joinLines pre ++ p) = .ok x [] []) := by
+      (fails = [] ∧ errs = [] ∧ parse (joinLines pre ++ p) = .ok (Int.ofNat ran) [] []) := by
   unfold encodeReport at hp
   obtain ⟨k, r, hk, hpk, t, ht⟩ := strictPrefix_joinLines _ p s hs hp
   have hnames : ∀ l ∈ fails ++ errs, 10 ∉ l := by
@@ -147,16 +134,15 @@ theorem C07_truncation_partial (pre : List Bytes) (ran : Nat) (fails errs : List
       have hnone : findHeader (pre ++ List.take 0 (headerLine ran fails.length errs.length :: (fails ++ errs))) = none := by
         simpa using findHeader_none pre hpre
       simp only [hnone]
-      have hplen : p.length ≤ (headerLine ran fails.length errs.length).length := by
-        have h1 : (r ++ t).length = (headerLine ran fails.length errs.length).length := by rw [ht]; simp
-        rw [hpk]
-        simp only [List.take_zero, joinLines, List.flatMap_nil, List.nil_append]
-        simp only [List.length_append] at h1
-        omega
+      have ht' : r ++ t = headerLine ran fails.length errs.length := by simpa using ht
       unfold parseTail
       split
-      · split
-        · exact Or.inr ⟨hpk ▸ hplen, _, rfl⟩
+      · rename_i x y z hph
+        split
+        · rename_i h0
+          obtain ⟨hx, hnf, hne⟩ := parseHeader_prefix_zero ran fails.length errs.length r t ht' x y z hph h0
+          subst hx
+          exact Or.inr ⟨List.eq_nil_of_length_eq_zero hnf, List.eq_nil_of_length_eq_zero hne, rfl⟩
         · exact Or.inl rfl
       · exact Or.inl rfl
     | succ k =>
